@@ -1,6 +1,6 @@
 """Rule kinds shared by the per-property modules (see DESIGN.md §3)."""
 from .engine import AnchorLost, Undecidable
-from .mir import (Origins, SubstOrigins, NotLoopFree, name_matches, op_place, path_words, place_local, place_proj,
+from .mir import (Origins, SubstOrigins, ChoiceOrigins, NotLoopFree, name_matches, op_place, path_words, place_local, place_proj,
                   rvalue_operands, show, strip_generics, strip_identity, switch_info, term_calls,
                   term_has_call, walk)
 
@@ -213,6 +213,53 @@ def words_of(body, call_sym, edge_sym=None, stmt_sym=None, start=0, stops=(), ke
         if all(d_[0] == "assign" and d_[3]["k"] == "use" and d_[3]["op"].get("k") == "const" and "int" in d_[3]["op"] for d_ in ds_):
             flags.add(l_)
 
+    # locals assigned on several branches and used after the join (`let x = if .. {a} else {b}; f(x)`, a hoisted common
+    # tail): symbols that depend on them are evaluated once per choice of definition and resolved per word by the
+    # definition the path actually passed (path-sensitive origins instead of a phi)
+    multi = {}
+    if _origins is None and _depth == 0:
+        try:
+            cyc_ = body.cyclic_blocks(succ) if succ is not None else body.cyclic_blocks()
+        except Exception:
+            cyc_ = set()
+        for l_, ds_ in body.defs().items():
+            if l_ in flags:
+                continue
+            nd_ = [d_ for d_ in ds_ if d_[0] in ("assign", "call")]
+            if len(nd_) < 2 or len(nd_) > 6 or len({d_[1] for d_ in nd_}) < 2 or len(nd_) != len([d_ for d_ in ds_ if d_[0] != "partial"]):
+                continue
+            if any(d_[1] in cyc_ for d_ in nd_):
+                continue
+            multi[l_] = nd_
+    defs_at = {}
+    for l_, nd_ in multi.items():
+        for i_, d_ in enumerate(nd_):
+            defs_at.setdefault((d_[1], d_[2]), []).append((l_, i_))
+
+    def resolve(f):
+        """evaluate a symbol callback; if it met multi-definition locals, evaluate it per choice of definition"""
+        if not multi:
+            return f(o)
+        bo = ChoiceOrigins(body, multi, {})
+        x0 = f(bo)
+        if not bo.touched:
+            return x0
+        locs = tuple(sorted(bo.touched))
+        n_ = 1
+        for l_ in locs:
+            n_ *= len(multi[l_])
+        if n_ > 24:
+            return x0
+        import itertools
+        table = []
+        for combo in itertools.product(*[range(len(multi[l_])) for l_ in locs]):
+            v_ = f(ChoiceOrigins(body, multi, dict(zip(locs, combo))))
+            table.append((combo, ("\x00list", tuple(v_)) if isinstance(v_, list) else v_))
+        x0h = ("\x00list", tuple(x0)) if isinstance(x0, list) else x0
+        if all(v_ == x0h for _, v_ in table):
+            return x0
+        return ("\x00dsym", locs, tuple(table), x0h)
+
     inl = {}            # bb of an inlined call -> alternatives (list of symbol lists)
     if inline is not None and _depth < 2:
         prog_ = inline["prog"]
@@ -305,12 +352,13 @@ def words_of(body, call_sym, edge_sym=None, stmt_sym=None, start=0, stops=(), ke
                     out.append(("\x00retflag", op_place(rv["op"])))
                 else:
                     out.append(("\x00ret", None))
-        if stmt_sym:
-            for s in bl["s"]:
-                if s["k"] == "assign" and not (_depth > 0 and s["lhs"] == 0):      # a helper's return slot is not the rule's
-                    x = stmt_sym(bb, s, o)
-                    if x is not None:
-                        out.append(x)
+        for si_, s in enumerate(bl["s"]):
+            if stmt_sym and s["k"] == "assign" and not (_depth > 0 and s["lhs"] == 0):      # a helper's return slot is not the rule's
+                x = resolve(lambda oo, s=s: stmt_sym(bb, s, oo))
+                if x is not None:
+                    out.append(x)
+            for l_, i_ in defs_at.get((bb, si_), ()):
+                out.append(("\x00def", l_, i_))
         c = body.call_at(bb)
         if c is not None and isinstance(c.dest, int):
             if name_matches(c.fn, "ops::try_trait::Try::branch") and c.args and isinstance(op_place(c.args[0]), int):
@@ -324,11 +372,13 @@ def words_of(body, call_sym, edge_sym=None, stmt_sym=None, start=0, stops=(), ke
             if bb in inl:
                 out.append(("\x00alt", tuple(tuple(a_) for a_ in inl[bb])))
             else:
-                x = call_sym(c, o)
+                x = resolve(lambda oo: call_sym(c, oo))
                 if x is not None:
                     out.append(x)
                 elif _depth > 0 and c.dest == 0 and body.local_ty(0) == "bool":
                     out.append(("\x00ret", None))
+        for l_, i_ in defs_at.get((bb, None), ()):
+            out.append(("\x00def", l_, i_))
         cache_b[bb] = out
         return out
 
@@ -370,7 +420,12 @@ def words_of(body, call_sym, edge_sym=None, stmt_sym=None, start=0, stops=(), ke
                 return None
             vis = []
             if edge_sym is not None:
-                x = edge_sym(a, b, subj, labs, o)
+                def _edge(oo):
+                    si_ = switch_info(body, a, oo) if oo is not o else (subj, labels)
+                    return edge_sym(a, b, si_[0] if si_ else subj, labs, oo)
+                x = resolve(_edge)
+                if isinstance(x, tuple) and len(x) == 4 and x[0] == "\x00dsym":
+                    x = [x]
                 if isinstance(x, list):
                     vis.extend(x)
                 elif x is not None:
@@ -387,6 +442,25 @@ def words_of(body, call_sym, edge_sym=None, stmt_sym=None, start=0, stops=(), ke
         cache_e[(a, b)] = out
         return out
 
+    if multi:
+        # definition markers are only needed for the locals some path-resolved symbol depends on: evaluate every block /
+        # edge symbol first, then drop the markers of all other locals (they would only multiply the words)
+        succ_f = succ or body.succ_noawait
+        for bb_ in sorted(body.reachable_from(start, succ=succ_f, avoid=())):
+            if body.is_cleanup(bb_):
+                continue
+            sym_block(bb_)
+            if bb_ in stops:
+                continue
+            for nx_ in succ_f(bb_):
+                sym_edge(bb_, nx_)
+        needed = set()
+        for lst_ in list(cache_b.values()) + [v_ for v_ in cache_e.values() if v_]:
+            for s_ in lst_:
+                if isinstance(s_, tuple) and len(s_) == 4 and s_[0] == "\x00dsym":
+                    needed |= set(s_[1])
+        for k_ in list(cache_b):
+            cache_b[k_] = [s_ for s_ in cache_b[k_] if not (isinstance(s_, tuple) and len(s_) == 3 and s_[0] == "\x00def" and s_[1] not in needed)]
     try:
         ws = path_words(body, start, sym_block, sym_edge, stops=stops, succ=succ)
     except NotLoopFree as e:
@@ -416,6 +490,30 @@ def words_of(body, call_sym, edge_sym=None, stmt_sym=None, start=0, stops=(), ke
                 continue
             raise Undecidable("inlined helper does not simply return")
         for core in expand(w[:-1]):
+            if multi:
+                curdef = {}
+                rc_ = []
+                for s_ in core:
+                    if isinstance(s_, tuple) and len(s_) == 3 and s_[0] == "\x00def":
+                        curdef[s_[1]] = s_[2]
+                        continue
+                    if isinstance(s_, tuple) and len(s_) == 4 and s_[0] == "\x00dsym":
+                        key_ = tuple(curdef.get(l_) for l_ in s_[1])
+                        v_ = s_[3]
+                        if None not in key_:
+                            for k2_, v2_ in s_[2]:
+                                if k2_ == key_:
+                                    v_ = v2_
+                                    break
+                        if v_ is None:
+                            continue
+                        if isinstance(v_, tuple) and len(v_) == 2 and v_[0] == "\x00list":
+                            rc_.extend(v_[1])
+                            continue
+                        rc_.append(v_)
+                        continue
+                    rc_.append(s_)
+                core = rc_
             # feasibility of flag temporaries
             st_ = {}
             feasible = True
